@@ -311,6 +311,241 @@ def gen_cl_case(rng):
     return {"conc": conc, "n": n, "notify": notify, "start": rng.choice([0, 0, 5, 1000]), "contract": contract}
 
 
+
+# --------------------------------------------------------------------------
+# S-loader: generated description documents
+# --------------------------------------------------------------------------
+PNAMES = ["pA", "pB", "pC", "pD"]
+GNAMES = ["gA", "gB", "gC"]
+RNAMES = ["Slot", "GPU", "CPU"]
+RIDS = ["r1", "r2", "x"]
+WNAMES = ["w0", "w1", "w2", "w3", "w4", "w5"]
+POLNAMES = ["periodic", "fixed", "poisson", "gamma", "closed_loop"]
+
+
+def float_of(mexp):
+    import math
+    return math.ldexp(mexp[0], mexp[1])
+
+
+def fl_of_float(x):
+    x = float(x)
+    if x == 0.0:
+        return [0, 0]
+    n, d = x.as_integer_ratio()
+    return [n, -(d.bit_length() - 1)]
+
+
+def gen_strategy(rng):
+    st = {}
+    if rng.random() < 0.9:
+        req = {}
+        for _ in range(rng.choice([1, 1, 1, 2, 3])):
+            rid = "any" if rng.random() < 0.6 else rng.choice(RIDS)
+            req["%s:%s" % (rng.choice(RNAMES), rid)] = rng.choice([1, 1, 2, 4])
+        st["resource_requirements"] = req
+    if rng.random() < 0.6:
+        st["batch_size"] = rng.choice([1, 2, 4, 8])
+    if rng.random() < 0.93:
+        st["runtime"] = rng.choice([0, 1, 10, 50, 100, 100, 250, 999, 5000])
+    return st
+
+
+def gen_loader_case(rng, forced_policy=None):
+    doc = {}
+    profiles = []
+    for k in range(rng.choice([1, 2, 2, 3, 4])):
+        pr = {}
+        if rng.random() < 0.993:
+            pr["name"] = PNAMES[k] if rng.random() < 0.95 else rng.choice(PNAMES[:k + 1])
+        r = rng.random()
+        if r < 0.98:
+            pr["execution_strategies"] = [gen_strategy(rng) for _ in range(rng.choice([1, 1, 2, 2, 3]))]
+        if rng.random() < 0.3:
+            pr["loading_strategies"] = [gen_strategy(rng) for _ in range(rng.choice([1, 2]))]
+        profiles.append(pr)
+    have = [p["name"] for p in profiles if "name" in p]
+    graphs = []
+    for gi in range(rng.choice([1, 1, 2, 2, 3])):
+        g = {}
+        if rng.random() < 0.993:
+            g["name"] = GNAMES[gi] if rng.random() < 0.95 else rng.choice(GNAMES[:gi + 1])
+        n = rng.choice([1, 2, 2, 3, 3, 4, 5])
+        nodes = []
+        for k in range(n):
+            nd = {"name": JOBNAMES[k] if rng.random() < 0.985 else JOBNAMES[rng.randrange(n)]}
+            if rng.random() < 0.99 and have:
+                nd["work_profile"] = rng.choice(have) if rng.random() < 0.996 else "pD"
+            if rng.random() < 0.3:
+                nd["slo"] = rng.choice([0, 50, 200, 500, 1000])
+            if rng.random() < 0.15:
+                nd["conditional"] = rng.random() < 0.7
+            if rng.random() < 0.25:
+                nd["probability"] = rng.choice([1.0, 0.5, 0.25, 0.0, 1])
+            if rng.random() < 0.12:
+                nd["terminal"] = rng.random() < 0.7
+            ch = [JOBNAMES[b] for b in range(k + 1, n) if rng.random() < 0.45]
+            rng.shuffle(ch)
+            if rng.random() < 0.004:
+                ch.append("H")           # not present in the graph
+            if ch or rng.random() < 0.2:
+                nd["children"] = ch
+            nodes.append(nd)
+        if rng.random() < 0.993:
+            g["graph"] = nodes
+        pol = forced_policy or rng.choice(["fixed", "fixed", "fixed", "poisson", "gamma", "closed_loop", "closed_loop", "periodic"]
+                                          if rng.random() < 0.985 else ["fixed_gamma", "bogus"])
+        if rng.random() < 0.993:
+            g["release_policy"] = pol
+        if rng.random() < 0.7:
+            g["start"] = rng.choice([0, 0, 5, 100, 1234, 10 ** 6])
+        if pol in ("fixed", "periodic") and rng.random() < 0.97:
+            g["period"] = rng.choice([0, 1, 10, 100, 333, 1000]) if pol == "fixed" else 2 ** rng.randint(59, 62)
+        if pol in ("fixed", "poisson", "gamma", "closed_loop") and rng.random() < 0.97:
+            g["invocations"] = rng.choice([0, 1, 2, 2, 3, 4]) if rng.random() < 0.3 else rng.choice([1, 2, 3])
+        if pol in ("poisson", "gamma") and rng.random() < 0.97:
+            g["rate"] = rng.choice([0.5, 0.05, 0.01, 0.125, 2.0, 1, 0.003])
+        if pol == "gamma" and rng.random() < 0.97:
+            g["coefficient"] = rng.choice([0.5, 1.0, 2.0, 4.0, 1, 0.3])
+        if pol == "closed_loop" and rng.random() < 0.97:
+            g["concurrency"] = rng.choice([1, 1, 2, 3, 2, 1, 2, 3, 4, 1, 0])
+        if rng.random() < 0.6:
+            g["deadline_variance"] = [rng.choice([0, 0, 10, 25]), rng.choice([0, 10, 50, 100, 33])]
+        graphs.append(g)
+    if rng.random() < 0.995:
+        doc["profiles"] = profiles
+    if rng.random() < 0.995:
+        doc["graphs"] = graphs
+    flags = None
+    rf = None
+    if rng.random() < 0.6:
+        rf = {"rate": 0.0, "coef": 0.0, "period": 0, "inv": 0, "unique": False, "repl": 1, "slo": -1, "minb": 0,
+              "maxb": 2 ** 63 - 1}
+        if rng.random() < 0.2:
+            rf["rate"] = rng.choice([0.25, 0.02, 1e-17])
+        if rng.random() < 0.2:
+            rf["coef"] = rng.choice([0.5, 3.0])
+        if rng.random() < 0.25:
+            rf["period"] = rng.choice([7, 250, -5])
+        if rng.random() < 0.25:
+            rf["inv"] = rng.choice([1, 3, 5, -2])
+        if rng.random() < 0.3:
+            rf["unique"] = True
+        if rng.random() < 0.35:
+            rf["repl"] = rng.choice([2, 3, 0])
+        if rng.random() < 0.25:
+            rf["slo"] = rng.choice([300, 2000, 0])
+        if rng.random() < 0.3:
+            rf["minb"] = rng.choice([20, 400])
+        if rng.random() < 0.3:
+            rf["maxb"] = rng.choice([30, 1000, 100000])
+        flags = ["--override_poisson_arrival_rate=%r" % rf["rate"], "--override_gamma_coefficient=%r" % rf["coef"],
+                 "--override_arrival_period=%d" % rf["period"], "--override_num_invocation=%d" % rf["inv"],
+                 "--unique_work_profiles=%s" % ("true" if rf["unique"] else "false"),
+                 "--replication_factor=%d" % rf["repl"], "--override_slo=%d" % rf["slo"],
+                 "--min_deadline=%d" % rf["minb"], "--max_deadline=%d" % rf["maxb"],
+                 "--random_seed=%d" % rng.randrange(2 ** 31)]
+    return {"doc": doc, "fmt": rng.choice(["json", "yaml", "yaml"]), "flags": flags, "rf": rf, "names": JOBNAMES,
+            "pnames": PNAMES, "gnames": GNAMES, "rnames": RNAMES, "rids": RIDS}
+
+
+def g_o(x, f):
+    return "None" if x is None else "(Some %s)" % f(x)
+
+
+def g_res(key, q):
+    name, rid = key.split(":")
+    return "(%s, %s, %s)" % (gz(RNAMES.index(name)), gz(0 if rid == "any" else RIDS.index(rid) + 1), gz(q))
+
+
+def g_dstrat(st):
+    req = st.get("resource_requirements")
+    return "(mkDS %s %s %s)" % (g_o(req, lambda r: glist([g_res(k, v) for k, v in r.items()])),
+                                g_o(st.get("batch_size"), gz), g_o(st.get("runtime"), gz))
+
+
+def g_dprofile(pr):
+    return "(mkDP %s %s %s)" % (g_o(pr.get("name"), lambda n: gz(PNAMES.index(n))),
+                                g_o(pr.get("loading_strategies"), lambda l: glist([g_dstrat(x) for x in l])),
+                                g_o(pr.get("execution_strategies"), lambda l: glist([g_dstrat(x) for x in l])))
+
+
+def g_dnode(nd):
+    return "(mkDN %s %s %s %s %s %s %s)" % (
+        gz(JOBNAMES.index(nd["name"])), g_o(nd.get("work_profile"), lambda n: gz(PNAMES.index(n))),
+        g_o(nd.get("slo"), gz), core.gbool(bool(nd.get("conditional"))),
+        g_o(nd.get("probability"), lambda x: g_fl(fl_of_float(x))), core.gbool(bool(nd.get("terminal"))),
+        g_o(nd.get("children"), lambda l: glist([gz(JOBNAMES.index(c)) for c in l])))
+
+
+def g_dgraph(g):
+    pol = g.get("release_policy")
+    code = None if pol is None else (POLNAMES.index(pol) if pol in POLNAMES else 9)
+    var = g.get("deadline_variance")
+    return "(mkDG %s %s %s %s %s %s %s %s %s %s)" % (
+        g_o(g.get("name"), lambda n: gz(GNAMES.index(n))), g_o(g.get("graph"), lambda l: glist([g_dnode(x) for x in l])),
+        g_o(code, gz), g_o(g.get("start"), gz), g_o(g.get("period"), gz), g_o(g.get("invocations"), gz),
+        g_o(g.get("concurrency"), gz), g_o(g.get("rate"), lambda x: g_fl(fl_of_float(x))),
+        g_o(g.get("coefficient"), lambda x: g_fl(fl_of_float(x))),
+        g_o(var, lambda v: "(%s, %s)" % (gz(v[0]), gz(v[1]))))
+
+
+def g_rflags(rf):
+    if rf is None:
+        return "None"
+    return "(Some (mkRF %s %s %s %s %s %s %s %s %s))" % (
+        g_fl(fl_of_float(rf["rate"])), g_fl(fl_of_float(rf["coef"])), gz(rf["period"]), gz(rf["inv"]),
+        core.gbool(rf["unique"]), gz(rf["repl"]), gz(rf["slo"]), gz(rf["minb"]), gz(rf["maxb"]))
+
+
+def g_load_case(c, r):
+    zc = [d[2] for d in r["draws"] if d[0] == "poisson"]
+    fc = [d[2] for d in r["draws"] if d[0] == "gamma"]
+    doc = c["doc"]
+    return "(mkLC %s %s %s %s %s %s)" % (
+        g_o(doc.get("profiles"), lambda l: glist([g_dprofile(x) for x in l])),
+        g_o(doc.get("graphs"), lambda l: glist([g_dgraph(x) for x in l])), g_rflags(c["rf"]),
+        glist([glist([gz(x) for x in a]) for a in zc]), glist([glist([g_fl(x) for x in a]) for a in fc]),
+        glist([g_fl(x) for x in r["uniform"]]))
+
+
+def gen_worker_case(rng):
+    pools = []
+    wi = 0
+    for pi in range(rng.choice([1, 1, 2, 3])):
+        ws = []
+        for _ in range(rng.choice([1, 2, 2, 3])):
+            res = []
+            for _ in range(rng.choice([1, 2, 2, 3, 4])):
+                r = rng.random()
+                nm = rng.choice(RNAMES)
+                full = nm if r < 0.25 else "%s:any" % nm if r < 0.55 else "%s:%s" % (nm, rng.choice(RIDS)) if r < 0.985 \
+                    else "%s:%s:%s" % (nm, "x", "x")
+                res.append({"name": full, "quantity": rng.choice([1, 2, 4, 8, 0])})
+            ws.append({"name": WNAMES[wi % len(WNAMES)], "resources": res})
+            wi += 1
+        pools.append({"name": PNAMES[pi], "workers": ws})
+    return {"doc": pools, "fmt": rng.choice(["json", "yaml"]), "pnames": PNAMES, "wnames": WNAMES, "rnames": RNAMES,
+            "rids": RIDS}
+
+
+def g_pools(doc):
+    def rs(r):
+        parts = r["name"].split(":")
+        code = -2 if len(parts) > 2 else -1 if len(parts) == 1 else 0 if parts[1] == "any" else RIDS.index(parts[1]) + 1
+        return "(%s, %s, %s)" % (gz(RNAMES.index(parts[0])), gz(code), gz(r["quantity"]))
+    return glist(["(%s, %s)" % (gz(PNAMES.index(p["name"])),
+                                glist(["(%s, %s)" % (gz(WNAMES.index(w["name"])), glist([rs(r) for r in w["resources"]]))
+                                       for w in p["workers"]])) for p in doc])
+
+
+def is_periodic_finding(c):
+    """input signature of finding C19-periodic-loader: some graph of the document has release_policy periodic
+    (with a flags object the horizon handed to generate_task_graphs is a bare int -> AttributeError; without one it is
+    EventTime(sys.maxsize) -> numpy.arange over 2^63 us)"""
+    return any(g.get("release_policy") == "periodic" for g in c["doc"].get("graphs", []))
+
+
 def run(ctx):
     ctx.fingerprint(FILES)
     ctx.translate(["Time"])
@@ -449,3 +684,211 @@ def run(ctx):
                 break
     except core.ModelEvalError as e:
         ctx.broken.append({"kind": "correspondence", "name": "S-closed-loop", "detail": str(e)[-600:]})
+
+    # ---------------- S-loader, S-worker-loader
+    n_ld = 500 if quick else 5000
+    n_wl = 150 if quick else 1500
+    ld_cases = []
+    while len(ld_cases) < n_ld:
+        c = gen_loader_case(rng)
+        if not is_periodic_finding(c):          # the known finding is replayed separately (corpus/C19)
+            ld_cases.append(c)
+    wl_cases = [gen_worker_case(rng) for _ in range(n_wl)]
+    impl3 = core.run_impl("release.py", {"loader": ld_cases, "worker_loader": wl_cases})
+    ctx.rules.append("S-loader: generated YAML/JSON workload documents (1-4 profiles with 1-3 execution/loading strategies, "
+                     "typed 'any' and specific resource ids, 1-3 graphs of 1-5 nodes with slo/conditional/probability/terminal/"
+                     "children, every release policy and parameter, deadline_variance, missing keys, duplicate names, unknown "
+                     "profiles/children/policies) loaded by the real WorkloadLoader with and without absl flags "
+                     "(--override_*, --replication_factor, --unique_work_profiles, --override_slo, --min/max_deadline); "
+                     "job graphs, policies, profiles, strategies, resources and all generated task graphs compared field by "
+                     "field; distinct = distinct (document, flags); non-trivial = loads successfully with >= 1 task graph "
+                     "of >= 2 tasks, or is rejected")
+    nt = 0
+    ld_dist = {"ok": 0, "errors": 0, "with_flags": 0, "replicated": 0, "task_graphs": 0}
+    for c, r in zip(ld_cases, impl3["loader"]):
+        ld_dist["with_flags"] += c["flags"] is not None
+        ld_dist["replicated"] += bool(c["rf"] and c["rf"]["repl"] > 1)
+        if r["res"][0] == 1:
+            ld_dist["errors"] += 1
+            nt += 1
+        else:
+            ld_dist["ok"] += 1
+            ntg = sum(len(x[2][0]) for x in r["res"][1][1])
+            ld_dist["task_graphs"] += ntg
+            if any(len(tg[1]) >= 2 for x in r["res"][1][1] for tg in x[2][0]):
+                nt += 1
+    ctx.cov["distinct_nontrivial"] += nt
+    ctx.cov["input_distribution"]["loader"] = ld_dist
+    ctx.sample({"stream": "S-loader", "doc": ld_cases[1]["doc"], "flags": ld_cases[1]["flags"]})
+    try:
+        cases = [(g_load_case(c, r), r["res"], c) for c, r in zip(ld_cases, impl3["loader"])]
+        mism = ctx.model_stream("S-loader", HDR, "load_case", "load_observe", cases, shard=60)
+        for idx, mv in mism[:3]:
+            ctx.violation("load%d" % idx, {"stream": "S-loader", "document": ld_cases[idx]["doc"], "format": ld_cases[idx]["fmt"],
+                                            "flags": ld_cases[idx]["flags"], "implementation": impl3["loader"][idx],
+                                            "model": mv,
+                                            "what": "objects built by WorkloadLoader differ from the description"})
+        cases = [(g_pools(c["doc"]), r["res"], c) for c, r in zip(wl_cases, impl3["worker_loader"])]
+        mism = ctx.model_stream("S-worker-loader", HDR, "list d_pool", "pools_observe", cases)
+        for idx, mv in mism[:3]:
+            ctx.violation("pools%d" % idx, {"stream": "S-worker-loader", "document": wl_cases[idx]["doc"],
+                                             "implementation": impl3["worker_loader"][idx], "model": mv,
+                                             "what": "worker pools built by WorkerLoader differ from the description"})
+        ctx.cov["distinct_nontrivial"] += len({repr(c["doc"]) for c in wl_cases})
+    except core.ModelEvalError as e:
+        ctx.broken.append({"kind": "correspondence", "name": "S-loader", "detail": str(e)[-600:]})
+
+    # ---------------- monitors on the implementation's own observations
+    run_monitors(ctx, rt_cases, impl["release_times"], inst_cases, impl2["instantiate"], cl_cases, impl2["closed_loop"])
+    # ---------------- corpus: regression cases of fixed defects, replay of open findings
+    run_corpus(ctx)
+
+
+def num_sign(p):
+    v = p[1] if p[0] == "z" else p[1][0]
+    return (v > 0) - (v < 0)
+
+
+def gamma_unit_signature(pol):
+    """input signature of finding C19-gamma-start-unit"""
+    return pol["type"] in ("gamma", "fixed_gamma") and pol["start"][1] != 0 and pol["start"][0] != 0
+
+
+def run_monitors(ctx, rt_cases, rt_impl, inst_cases, inst_impl, cl_cases, cl_impl):
+    ctx.rules.append("monitors (Gallina booleans proved equivalent to the statements, Proofs/ReleaseP5.v, applied to what the "
+                     "implementation produced): fixed/periodic instants equal the declared ones; poisson/gamma/fixed+gamma give N "
+                     "non-decreasing instants from the start; closed-loop event logs keep in-flight <= concurrency and "
+                     "released <= N; TaskGraph.deadline - release within the clamped integer envelope of "
+                     "completion_time*(1+variance/100); each task graph has the job graph's named nodes and children lists "
+                     "and fresh task objects")
+    mons = {"fixed": [], "periodic": [], "arrivals": [], "deadline": [], "iso": [], "cl": []}
+    where = {k: [] for k in mons}
+    for i, (c, r) in enumerate(zip(rt_cases, rt_impl)):
+        pol = c["policy"]
+        if r["res"][0] != 0:
+            continue
+        obs = [t * UF[u] for t, u in r["res"][1]]
+        k = pol["type"]
+        if k == "fixed" and pol["n"] >= 0:
+            mons["fixed"].append("(%s, %s, %s, %s)" % (gz(us(pol["start"])), gz(us(pol["period"])), gz(pol["n"]),
+                                                        glist([gz(x) for x in obs])))
+            where["fixed"].append(c)
+        elif k == "periodic" and us(pol["period"]) != 0:
+            mons["periodic"].append("(%s, %s, %s, %s)" % (gz(us(pol["start"])), gz(us(pol["period"])), gz(us(c["completion"])),
+                                                           glist([gz(x) for x in obs])))
+            where["periodic"].append(c)
+        elif k in ("poisson", "gamma", "fixed_gamma") and pol["n"] > 0 and not gamma_unit_signature(pol) and \
+                (k != "fixed_gamma" or (num_sign(pol["base"]) >= 0 and num_sign(pol["rate"]) > 0)):
+            mons["arrivals"].append("(%s, %s, %s)" % (gz(us(pol["start"])), gz(pol["n"]), glist([gz(x) for x in obs])))
+            where["arrivals"].append(c)
+    for c, r in zip(inst_cases, inst_impl):
+        if r["res"][0] != 0 or r["ct"][0] != 0 or not r["ct"][1]:
+            continue
+        ct = r["ct"][1][0] * UF[r["ct"][1][1]]
+        var = c["variance"] if c["variance"] is not None else \
+            ([c["flags"]["minv"], c["flags"]["maxv"]] if c["flags"] is not None else [0, 0])
+        minb, maxb = (c["flags"]["minb"], c["flags"]["maxb"]) if c["flags"] is not None else (0, 2 ** 63 - 1)
+        names = [j["name"] for j in c["jobs"]]
+        dag = all(a < b for a, b in c["edges"]) and len({tuple(e) for e in c["edges"]}) == len(c["edges"])
+        if len(set(names)) == len(names) and dag:     # precondition of the property: job names identify the jobs, the graph is a DAG
+            for rel, dl in r["tg_meta"]:
+                mons["deadline"].append("(%s, %s, %s, %s, %s, %s)" % (gz(ct), gz(var[0]), gz(var[1]), gz(minb), gz(maxb), gz(dl - rel)))
+                where["deadline"].append(c)
+            jobs = glist(["(%s, %s)" % (gz(j["name"]), glist([gz(c["jobs"][b]["name"]) for a, b in c["edges"] if a == k]))
+                          for k, j in enumerate(c["jobs"])])
+            for tg in r["res"][1][0]:
+                tasks = glist(["(%s, %s)" % (gz(t[0]), glist([gz(x) for x in t[4]])) for t in tg[1]])
+                mons["iso"].append("(%s, %s)" % (jobs, tasks))
+                where["iso"].append(c)
+            if r["res"][1][1] != 1:
+                ctx.violation("fresh", {"stream": "monitor", "case": c, "what": "task objects are shared between invocations "
+                                        "(task ids are not pairwise distinct)"})
+    for c, r in zip(cl_cases, cl_impl):
+        if r["init"][0] != 0 or c["conc"] <= 0 or c["n"] <= 0:
+            continue
+        live = set(r["init"][1])
+        log = ["true"] * len(r["init"][1])
+        ok = True
+        for g, st in zip(c["notify"], r["steps"]):
+            if g not in live or st[0] != 0:
+                ok = False               # the caller's contract (one notification per in-flight graph) is not met
+                break
+            live.discard(g)
+            log.append("false")
+            for x in st[1]:
+                live.add(x)
+                log.append("true")
+        if ok:
+            mons["cl"].append("(%s, %s, %s)" % (gz(c["conc"]), gz(c["n"]), glist(log)))
+            where["cl"].append(c)
+    specs = [
+        ("fixed", "Z * Z * Z * list Z", "(fun c => let '(s, p, n, o) := c in mon_fixed s p n o)",
+         "FIXED release instants are not start + i*period for i < N"),
+        ("periodic", "Z * Z * Z * list Z", "(fun c => let '(s, p, h, o) := c in mon_periodic s p h o)",
+         "PERIODIC release instants are not every period from the start until the horizon"),
+        ("arrivals", "Z * Z * list Z", "(fun c => let '(s, n, o) := c in mon_arrivals s n o)",
+         "POISSON/GAMMA release instants are not N non-decreasing instants beginning at the start"),
+        ("deadline", "Z * Z * Z * Z * Z * Z", "(fun c => let '(ct, a, b, lo, hi, st) := c in mon_deadline ct a b lo hi st)",
+         "TaskGraph.deadline - release is outside completion_time stretched by the declared variance and clamped to the bounds"),
+        ("iso", "nadj * nadj", "(fun c => mon_iso (fst c) (snd c))",
+         "an instantiated task graph is not a copy of the job graph (nodes / children differ)"),
+        ("cl", "Z * Z * list bool", "(fun c => let '(k, n, l) := c in mon_closed_loop k n 0 0 l)",
+         "closed loop: more than `concurrency` graphs in flight or more than N released"),
+    ]
+    for key, ty, fn, what in specs:
+        if not mons[key]:
+            continue
+        try:
+            bad = ctx.monitor_stream("M-" + key, HDR, ty, fn, mons[key])
+        except core.ModelEvalError as e:
+            ctx.broken.append({"kind": "monitor", "name": "M-" + key, "detail": str(e)[-600:]})
+            continue
+        for b in bad[:2]:
+            ctx.violation("mon_%s%d" % (key, b), {"stream": "monitor M-" + key, "case": where[key][b], "observation": mons[key][b],
+                                                  "what": what})
+
+
+def run_corpus(ctx):
+    import glob
+    import json
+    import os
+    cdir = os.path.join(core.ROOT, "corpus", "C19")
+    files = {os.path.basename(f): json.load(open(f)) for f in sorted(glob.glob(os.path.join(cdir, "*.json")))}
+    f12b = files["F12b_sticky_slo.json"]
+    f7b = files["F7b_seeded_rng.json"]
+    per = files["periodic_loader.json"]
+    per_noflags = dict(per["case"], flags=None, rf=None)
+    gam = files["gamma_start_unit.json"]
+    bpd = files["branch_predicated_deadlines.json"]
+    r = core.run_impl("release.py", {
+        "loader": [f12b["case"], f7b["case"], f7b["case"], per["case"], per_noflags],
+        "release_times": [gam["case"]], "instantiate": [bpd["case"]],
+        "closed_loop": [{"conc": 1, "n": 3, "notify": [0, 0]}]})
+    # --- regressions of fixed defects: must hold
+    res = r["loader"][0]["res"]
+    ok = res[0] == 0 and res[1][0][0][4][1][1] == f12b["expect"]["slo_of_B"] and \
+        res[1][1][0][2][0][0][1][0][2] == [f12b["expect"]["deadline_us"], 0]
+    if not ok:
+        ctx.violation("F12b", {"stream": "corpus", "document": f12b["case"]["doc"], "implementation": res,
+                               "what": "regression of F12b: " + f12b["what"]})
+    a, b = r["loader"][1], r["loader"][2]
+    if a["res"][0] != 0 or a["draws"] != b["draws"] or a["res"] != b["res"] or not a["draws"]:
+        ctx.violation("F7b", {"stream": "corpus", "document": f7b["case"]["doc"], "flags": f7b["case"]["flags"],
+                              "first_run": a["draws"], "second_run": b["draws"], "what": "regression of F7b: " + f7b["what"]})
+    # --- open findings: replayed, reported only while they still fail
+    if r["loader"][3]["res"] == per["expect_res"] and r["loader"][4]["res"][0] == 1:
+        ctx.known(per["id"], "WorkloadLoader cannot instantiate release_policy periodic: with flags AttributeError "
+                             "(int loop_timeout, workload_loader.py:77 -> jobs.py:277), without flags MemoryError "
+                             "(horizon sys.maxsize); witness corpus/C19/periodic_loader.json")
+    g = r["release_times"][0]["res"]
+    if g[0] == 0 and g[1][0] == [5, 0]:
+        ctx.known(gam["id"], "ReleasePolicy.gamma(start=5 ms) releases first at 5 us (jobs.py:324 reads start.time without "
+                             "converting); lemma gamma_first_refuted; witness corpus/C19/gamma_start_unit.json")
+    if r["instantiate"][0]["res"] == bpd["expect_res"]:
+        ctx.known(bpd["id"], "--use_branch_predicated_deadlines: AttributeError 'Job' object has no attribute 'runtime' "
+                             "(jobs.py:872-876); witness corpus/C19/branch_predicated_deadlines.json")
+    st = r["closed_loop"][0]["steps"]
+    if len(st) == 2 and st[0][0] == 0 and st[1][0] == 0 and st[0][1] == [1] and st[1][1] == [2]:
+        ctx.known("F12a", "Workload.notify_task_graph_completion(G@0) called twice (concurrency 1, N 3) releases G@1 and G@2: "
+                          "two graphs in flight; the bookkeeping relies on the caller's one-notification-per-graph contract "
+                          "(lemma closed_loop_double_notify_refuted; the simulator breaks it at simulator.py:664-694)")
